@@ -256,7 +256,11 @@ let oracle_c17_case script trace =
                          cb_globals_same = gsame; cb_others_same = osame; cb_rest_same = nondep_same && not dep_changed } in
                fail li op (int_of_n (cw_orc_create (ty = "Service") b));
                if res = "ok" && has a "attrs" then begin
-                 let sup = cw_dcopy (dlist_of (cw_decode (str a "attrs" "o;"))) DNil in
+                 let sup0 = cw_dcopy (dlist_of (cw_decode (str a "attrs" "o;"))) DNil in
+                 (* the parts of a composed name are authoritative: a supplied name-part attribute reads back as the part *)
+                 let sup = match cw_name_parts (ty = "Service") (cwb name) with
+                   | Some (_, Some h) when cw_dget (cwb "host_name") sup0 <> None -> cw_dset (cwb "host_name") (CwStr h) sup0
+                   | _ -> sup0 in
                  (match tok_val t "attrs" with
                   | Some g -> fail li op (int_of_n (cw_orc_attrs sup (dlist_of (cw_decode g))))
                   | None -> ());
